@@ -71,11 +71,31 @@ def execute(sc):
     return out
 
 
+def _ulp_of_token(tok):
+    """half a unit in the last printed place of a number as it appears in the text (whatever format was used)"""
+    t = tok.strip().lower()
+    mant, _, ex = t.partition('e')
+    dec = len(mant.split('.')[1]) if '.' in mant else 0
+    try:
+        e = int(ex) if ex else 0
+    except ValueError:
+        e = 0
+    return 0.5 * 10.0 ** (e - dec)
+
+
 def _close(p, x, rel=True):
+    """does the printed token p show the value x, at the precision it was printed with?"""
+    tok = p if isinstance(p, str) else None
+    try:
+        p = float(p)
+    except ValueError:
+        return False
     if np.isnan(x):
         return np.isnan(p)
     if np.isinf(x):
         return p == x
+    if tok is not None:
+        return abs(p - x) <= 1.001 * _ulp_of_token(tok) + 1e-12 * abs(x)
     if rel:
         return abs(p - x) <= 6e-4 * abs(x) + 1e-300
     return abs(p - x) <= 6e-4 + 1e-12 * abs(x)
@@ -260,12 +280,12 @@ def _check_text(op, od, R, want, cols, lookup, out, st=None):
                     out.probe('nan_or_inf_listed')
                 if int(t[0]) != i + 1 or t[1] != nm:
                     return 'fit %d of %s lists model %s, ranking says %s' % (i + 1, r['name'], t[1], nm)
-                if not (_close(float(t[2]), r['chi'][i], False) or _close(float(t[2]), r['chi'][i], True)) or not _close(float(t[3]), r['av'][i], False) or not _close(float(t[4]), r['sc'][i], False):
+                if not (_close(t[2], r['chi'][i])) or not _close(t[3], r['av'][i]) or not _close(t[4], r['sc'][i]):
                     return 'fit %d of %s: chi2/av/scale %s, expected %r %r %r' % (i + 1, r['name'], t[2:5], r['chi'][i], r['av'][i], r['sc'][i])
                 if len(t) != 5 + len(cols):
                     return 'fit row has %d columns, expected %d' % (len(t), 5 + len(cols))
                 for ci, c in enumerate(cols):
-                    if not _close(float(t[5 + ci]), lookup(c, nm)):
+                    if not _close(t[5 + ci], lookup(c, nm)):
                         return 'fit %d of %s (model %s): column %s shows %s, the parameter file has %r for that model' % (i + 1, r['name'], nm, c, t[5 + ci], lookup(c, nm))
         if pos != len(L):
             return '%d extra lines' % (len(L) - pos)
@@ -296,7 +316,7 @@ def _check_text(op, od, R, want, cols, lookup, out, st=None):
                 return 'line has %d values, expected %d' % (len(t[3:]), len(exp))
             for j, (a, b) in enumerate(zip(t[3:], exp)):
                 out.compared('wpr-value')
-                if not _close(float(a), b):
+                if not _close(a, b):
                     q = (['chi2', 'av', 'scale'] + list(cols))[j // 3]
                     return 'source %s: %s of %s shows %s, expected %r over the %d selected fits' % (r['name'], ['min', 'best', 'max'][j % 3], q, a, b, k)
         return None
@@ -323,13 +343,13 @@ def _check_text(op, od, R, want, cols, lookup, out, st=None):
                 t = E[1 + i].split()
                 nm = r['names'][i]
                 out.compared('ep-row')
-                if not (_close(float(t[0]), r['chi'][i]) and _close(float(t[1]), r['av'][i]) and _close(float(t[2]), r['sc'][i])):
+                if not (_close(t[0], r['chi'][i]) and _close(t[1], r['av'][i]) and _close(t[2], r['sc'][i])):
                     return 'row %d of %s: chi2/av/scale %s, expected %r %r %r' % (i + 1, r['name'], t[:3], r['chi'][i], r['av'][i], r['sc'][i])
                 for ci, c in enumerate(pcols):
                     if c == 'MODEL_NAME':
                         if t[3 + ci] != nm:
                             return 'row %d of %s lists model %s, ranking says %s' % (i + 1, r['name'], t[3 + ci], nm)
-                    elif not _close(float(t[3 + ci]), lookup(c, nm)):
+                    elif not _close(t[3 + ci], lookup(c, nm)):
                         return 'row %d of %s (model %s): %s shows %s, parameter file has %r' % (i + 1, r['name'], nm, c, t[3 + ci], lookup(c, nm))
         return None
 
